@@ -22,6 +22,18 @@ class ClassWalker(Walker):
     tests with short-circuit facts, so each path knows the class facts it was taken under)."""
 
     def sym(self, node, st):
+        import ast
+        if isinstance(node, ast.Call) and isinstance(node.func, ast.Subscript):
+            # TABLE[key](...) called directly: same value as `f = TABLE[key]; f(...)`
+            args = tuple(('star', self.sym(a.value, st)) if isinstance(a, ast.Starred) else self.sym(a, st) for a in node.args)
+            kwl = []
+            for kw in node.keywords:
+                v_ = self.sym(kw.value, st)
+                if kw.arg is None and v_[0] == 'kwdict':
+                    kwl.extend(v_[1])
+                else:
+                    kwl.append((kw.arg, v_))
+            return ('callv', self.sym(node.func, st), args, tuple(kwl))
         v = super().sym(node, st)
         if (isinstance(v, tuple) and v and v[0] == 'call' and v[1] == 'isinstance' and len(v[2]) == 2 and not v[3]
                 and v[2][1][0] in ('tuple', 'list')):
@@ -139,6 +151,26 @@ def value_under_class(facts, v, obj, cls):
         if v[1] in facts.consts:
             return facts.consts[v[1]]
         raise NotUnderstood('name {} is not a module constant'.format(v[1]))
+    if k == 'struct_of':
+        # format string of a struct.Struct(fmt) object (local, or a module-level constant)
+        r = strip(v[1])
+        if r[0] == 'ifexp':
+            t_ = eval_test(facts, r[1], obj, cls)
+            if t_ is None:
+                raise NotUnderstood('condition {} does not depend on the item class only'.format(show(r[1])))
+            return value_under_class(facts, ('struct_of', r[2] if t_ else r[3]), obj, cls)
+        if r[0] == 'call' and r[1] in ('struct.Struct', 'Struct') and len(r[2]) == 1 and not r[3]:
+            return value_under_class(facts, r[2][0], obj, cls)
+        if r[0] == 'name' and r[1] in facts.assign_nodes:
+            import ast
+            from .astutil import fold, NotConstant, dotted
+            n_ = facts.assign_nodes[r[1]].value
+            if isinstance(n_, ast.Call) and dotted(n_.func) in ('struct.Struct', 'Struct') and len(n_.args) == 1 and not n_.keywords:
+                try:
+                    return fold(n_.args[0], facts.consts)
+                except NotConstant:
+                    pass
+        raise NotUnderstood('{} is not a struct.Struct with a constant format'.format(show(r)))
     if k == 'ifexp':
         r = eval_test(facts, v[1], obj, cls)
         if r is None:
@@ -202,6 +234,32 @@ def describe_format(fmt):
         return None
     size, unsigned = _CODES[body]
     return size, order, unsigned
+
+
+def pack_parts(facts, t):
+    """(format term, value term) when the term turns an integer into bytes: struct.pack(fmt, v), struct.Struct(fmt).pack(v) (the
+    Struct possibly a module-level constant), v.to_bytes(n, order[, signed=]) -> format ('to_bytes', n, order, signed);
+    'unknown' for such a call with an unexpected shape; None for any other term."""
+    if t[0] == 'call' and t[1] == 'struct.pack':
+        if len(t[2]) != 2 or t[3] or any(a[0] == 'star' for a in t[2]):
+            return 'unknown'
+        return t[2][0], t[2][1]
+    if t[0] == 'mcall' and t[2] == 'pack':
+        # <Struct object>.pack(v): the format is the Struct's, resolved per item class (value_under_class 'struct_of')
+        if len(t[3]) != 1 or t[4] or t[3][0][0] == 'star':
+            return 'unknown'
+        return ('struct_of', t[1]), t[3][0]
+    if t[0] == 'mcall' and t[2] == 'to_bytes':
+        kws = dict(t[4])
+        pos = list(t[3])
+        if any(a[0] == 'star' for a in pos) or None in kws or len(pos) > 2 or set(kws) - {'length', 'byteorder', 'signed'}:
+            return 'unknown'
+        size = pos[0] if pos else kws.get('length')
+        order = pos[1] if len(pos) > 1 else kws.get('byteorder')
+        if size is None or order is None:
+            return 'unknown'
+        return ('to_bytes', size, order, kws.get('signed', C(False))), t[1]
+    return None
 
 
 # -- selecting elements of item.args() -----------------------------------------------------------------------------------------------
@@ -297,9 +355,19 @@ def call_arguments(call, args_term, length):
     if whole and (pos or len(call[2]) != 1):
         raise NotUnderstood('whole args() mixed with other positional arguments')
     kws = {}
+    pairs = []
     for name, val in call[3]:
         if name is None:
-            raise NotUnderstood('**kwargs in the encoder call')
+            d = strip(val)
+            if d[0] == 'call' and d[1] == 'dict' and not d[2]:
+                pairs.extend(d[3])
+            elif d[0] == 'dict' and all(is_const(k) and isinstance(k[1], str) for k, _ in d[1]):
+                pairs.extend((k[1], v) for k, v in d[1])
+            else:
+                raise NotUnderstood('**kwargs in the encoder call')
+        else:
+            pairs.append((name, val))
+    for name, val in pairs:
         s = select(val, args_term, length)
         if s[0] != 'one':
             raise NotUnderstood('keyword {} receives a list'.format(name))
@@ -366,7 +434,7 @@ def check_pack_rule(report, facts, rule, fn_name='resolve_instructions'):
             for x in ev[1:-1]:
                 if isinstance(x, tuple):
                     for t in subterms(x):
-                        if t[0] == 'call' and t[1] == 'struct.pack' and t not in packs:
+                        if pack_parts(facts, t) is not None and t not in packs:
                             packs.append(t)
         item = item_of_path(facts, path, packs)
         if item is None:
@@ -388,9 +456,10 @@ def check_pack_rule(report, facts, rule, fn_name='resolve_instructions'):
             node = node_of(path, pack) or fn
             covered[cls] = covered.get(cls, 0) + 1
             report.count('(path, class) packing obligations')
-            if len(pack[2]) != 2 or pack[3] or any(a[0] == 'star' for a in pack[2]):
-                raise AnalysisError('{}: struct.pack call shape not understood: {}'.format(fn_name, show(pack)))
-            fmt_v, code = pack[2][0], strip(pack[2][1])
+            parts = pack_parts(facts, pack)
+            if parts == 'unknown':
+                raise AnalysisError('{}: call shape of the packing not understood: {}'.format(fn_name, show(pack)))
+            fmt_v, code = parts[0], strip(parts[1])
             # (1) the packed value is the encoder's result, the encoder is looked up by the item's own mnemonic
             if code[0] != 'callv' or strip(code[1])[0] != 'sub' or strip(code[1])[1] != ('name', 'INSTRUCTIONS'):
                 raise AnalysisError('{}: the value packed is not the result of a call of INSTRUCTIONS[...]: {}'.format(fn_name, show(code)))
@@ -432,12 +501,20 @@ def check_pack_rule(report, facts, rule, fn_name='resolve_instructions'):
                 continue
             # (3) format
             try:
-                fmt = value_under_class(facts, fmt_v, item, cls)
+                if fmt_v[0] == 'to_bytes':
+                    size = value_under_class(facts, fmt_v[1], item, cls)
+                    order = value_under_class(facts, fmt_v[2], item, cls)
+                    signed = value_under_class(facts, fmt_v[3], item, cls)
+                    got_descr = (size, order, not signed)
+                    fmt = 'to_bytes({}, {!r}{})'.format(size, order, ', signed=True' if signed else '')
+                else:
+                    fmt = value_under_class(facts, fmt_v, item, cls)
+                    got_descr = describe_format(fmt)
             except NotUnderstood as e:
-                raise AnalysisError('{}: struct format for {} items not understood ({}): {}'.format(fn_name, cls, e, show(fmt_v)))
+                raise AnalysisError('{}: word format for {} items not understood ({}): {}'.format(fn_name, cls, e, show(fmt_v)))
             compressed = facts.is_subclass(cls, 'CompressedInstruction')
             want = '<H' if compressed else '<I'
-            if describe_format(fmt) != describe_format(want):
+            if got_descr != describe_format(want):
                 fail(cls, node, 'instruction words must be packed as {!r} (little-endian unsigned {}-bit) for {} items, found {!r}'.format(
                     want, 16 if compressed else 32, cls, fmt))
                 continue
